@@ -121,12 +121,14 @@ def evalEasy (ctx : Ctx) (toks : List String) : Option Result :=
   | ["stream", v, s] => evalStream ctx v s
   | ["file", v, s] => evalFile ctx v s
   | ["lie", v, n] => evalLie ctx v n
-  | ["hstream", _v, first, extra] =>
+  | [op, _v, first, extra, fail] =>
+    if op != "hstream" && op != "hstreamerr" then none else
     -- only the length matters (the model cannot hold 4 GiB): TooLargeInput iff more than MAX bytes were
     -- delivered (`C11.too_large_iff`), otherwise a hash whose length code is that of the total (169 at MAX)
     match first.toNat?, extra.toNat? with
     | some a, some b =>
-      let r := if a + b > Ref.maxLength then "toolarge" else "ok:169"
+      -- a hard error after the data is returned as the I/O error whatever the length (`C12.hard_error_wins`)
+      let r := if fail == "1" then "ioerr" else if a + b > Ref.maxLength then "toolarge" else "ok:169"
       some { model := r, spec := some r }
     | _, _ => none
   | ["cmpstr", v, l, r] => evalCmpstr ctx v l r
